@@ -20,6 +20,16 @@ the copy, after checking that the source is unchanged and that the two objects a
 
 A second, small search uses string keys so that the keyword-argument forms (OMD(a=1), update(E, a=1)) and
 setdefault(k) without default (which inserts None) are covered without multiplying the main domain.
+
+Arguments that fail while they are consumed (addlist / update / update_extend / |= with a one-shot iterator that raises
+before its first item, after one, after two) are operations of the menu: the failure must reach the caller, the object
+must equal the list of pairs after some prefix of the produced items, and the search continues from that state.
+
+A directed part (run_cyclic, exhaustive over its own small space, not part of the BFS because such values are not
+hashable state components) stores values that refer back to the mapping - the mapping itself, a list / tuple / dict
+holding it, a child mapping with a parent reference, one list shared by several pairs - and compares, by object
+identity, the joint object graph of (source, copy) and the reads of every mapping in it after copy(), copy.copy,
+copy.deepcopy and pickle under every protocol with the same operation on plain lists of pairs.
 """
 import copy as copymod
 import os
@@ -1307,7 +1317,8 @@ def _run(ctx, parts, scratch):
                                                                                     for c in configs(ctx.tier)],
                      'pickle_protocols': list(PICKLE_PROTOCOLS)}
     menu_ops = sorted({opsig(op) for c in configs(ctx.tier) for op in Spec(*c).menu + Spec(*c).news})
-    seen_ok = {k.split(' -> ')[0] for k in cov['op_result_table'] if k.endswith(' -> ok')}
+    seen_ok = {k.split(' -> ')[0] for k in cov['op_result_table']
+               if k.endswith(' -> ok') or ('(raising-' in k and k.endswith(' -> ArgumentFailure'))}
     cov['menu_ops_never_succeeding'] = [o for o in menu_ops if o not in seen_ok]
     cov['op_shapes_stopped_after_exhausting_cpu_budget'] = sorted(os.listdir(scratch))
     cov['values_referring_back_to_the_mapping'] = run_cyclic(ctx)
@@ -1319,7 +1330,12 @@ def _run(ctx, parts, scratch):
         'shapes the statement lists: not explored',
         'an operation is enabled only when every successor the statement allows holds <= L pairs '
         '(and, in the int-key searches, only values of the domain: setdefault(k) without default needs k present)',
-        'operands that are OMDs are built with add() on the class under check']
+        'operands that are OMDs are built with add() on the class under check',
+        'an argument iterable that fails while it is consumed: the failure must reach the caller; the mapping may hold '
+        'any prefix of the items produced before the failure (all-or-nothing and item-by-item are both accepted)',
+        'values referring back to the mapping: ==, !=, sorted, sortedvalues, inverted and repr are not read on them (a '
+        'plain list of pairs recurses, raises or renders "[...]" there); mutators other than add / update_extend / '
+        'clear are not applied to such mappings']
 
 
 def replay(ctx, data):
